@@ -330,8 +330,10 @@ def sympy_eval(expr, point: dict, ode):
             subs[ode.t] = sympy.Float(v, 40)
         elif n in ode.symbols:
             subs[ode.symbols[n]] = sympy.Float(v, 40)
-    v = expr.xreplace(subs)
     try:
+        # substituting numbers re-evaluates the relations: a branch value that is complex at this point (sqrt of a negative
+        # number) makes sympy refuse the comparison it stands in ("Invalid comparison of non-real")
+        v = expr.xreplace(subs)
         return mpf(str(sympy.N(v, 40)))
     except Exception:
         return None
